@@ -321,6 +321,7 @@ func (e *Engine) frameObligations(c *Contract, res execResult, h0 Heap) {
 			Goal:   goal,
 			Func:   c.Func,
 			Pos:    e.posOf(e.root.Pos()),
+			Using:  frameUsing(c),
 		})
 	}
 }
@@ -351,4 +352,16 @@ func (e *Engine) runInit(pkg *ssa.Package, h Heap) {
 	for k := range e.dirty {
 		delete(e.dirty, k)
 	}
+}
+
+
+// frameUsing: the labelled hypotheses the frame obligations of a contract use: those named by
+// "using(...)" on its assigns clause; without one, all (nil).
+func frameUsing(c *Contract) []string {
+	for _, cl := range c.byKind("assigns") {
+		if cl.Using != nil {
+			return cl.Using
+		}
+	}
+	return nil
 }
